@@ -40,7 +40,8 @@ Lemma c5_rnd_sim X t a b c d : (t < 64)%nat ->
 Proof.
   intros Ht.
   do 64 (destruct t as [|t];
-         [ cbn; rewrite ?c5_F_eq, ?c5_G_eq, ?c5_H_eq, ?c5_I_eq; reflexivity | ]).
+         [ cbv -[add32 rotl32 c5_F c5_G c5_H c5_I r5_F r5_G r5_H r5_I nth];
+           rewrite ?c5_F_eq, ?c5_G_eq, ?c5_H_eq, ?c5_I_eq; reflexivity | ]).
   lia.
 Qed.
 
